@@ -15,6 +15,8 @@ NoPkt == [k |-> 0]
 MonInit == [viol |-> {},
             poss |-> {},     \* <<id, a>>: attempt id possibly registered with metadata a now
             def  |-> {},     \* <<id, a>>: certainly registered now (AddRet seen, no later call on id)
+            resp |-> {},     \* <<id, rid>>: ServerPuncher.Respond calls in flight (id: the call, rid: the attempt id passed)
+            dupok |-> {},    \* calls that overlapped another call with the same attempt id (may be refused as duplicate)
             pend |-> NoPkt]  \* packet handed to the code, decision not yet observed
                              \*  + win: metadata possibly registered at some instant since Inject
                              \*  + dwin: <<id, a>> certainly registered during the whole window
@@ -47,6 +49,16 @@ MonStep(m, e, ln) ==
          [m EXCEPT !.def  = m.def \ OfId(m.def, e.id),
                    !.pend = IF m.pend.k = 0 THEN m.pend ELSE [m.pend EXCEPT !.dwin = @ \ OfId(@, e.id)]]
     [] e.ev = "RemRet" -> [m EXCEPT !.poss = m.poss \ OfId(m.poss, e.id)]
+    \* ---------------- ServerPuncher.Respond as a whole (the driver also logs AddCall before and RemRet after it):
+    \* whatever way it returns, its attempt is gone - a later call with the same attempt id that overlaps no
+    \* other call must not be refused as a duplicate
+    [] e.ev = "RespCall" ->
+         LET same == {p \in m.resp : p[2] = e.rid} IN
+         [m EXCEPT !.resp = m.resp \cup {<<e.id, e.rid>>},
+                   !.dupok = IF same = {} THEN m.dupok ELSE m.dupok \cup {e.id} \cup {p[1] : p \in same}]
+    [] e.ev = "RespRet" ->
+         [m EXCEPT !.resp = m.resp \ {<<e.id, e.rid>>}, !.dupok = m.dupok \ {e.id},
+                   !.viol = VAll(m.viol, e, ln, << <<"RemovedOnReturn", e.dup /\ e.id \notin m.dupok>> >>)]
     \* ---------------- the reader
     [] e.ev = "InnerCall" -> [m EXCEPT !.viol = Withheld(m, e, ln), !.pend = NoPkt]
     [] e.ev = "InnerEOF"  -> m
